@@ -12,7 +12,8 @@ DEV = [(FINDING, DEVCFG)]
 RULE = ("schedules = histories of Store(duty,set) / Await*(key) / cancel / expiry / PubKeyByAttestation over the four keyspaces "
         "(attestation incl. committee-0 alias and pubkey index, proposal, aggregate, sync contribution) with equal, conflicting "
         "and partially conflicting data on overlapping keys; generated (a) by TLC simulation of DutyDBGen, (b) by a seeded random "
-        "generator (sequential and, for 4 goroutines, concurrent call/ret histories validated as linearisable), (c) one fixed probe "
+        "generator (sequential and, for 4 goroutines, concurrent call/ret histories validated as linearisable), a gate tier (a Store "
+        "held inside deadliner.Add while its duty expires and another Store drains the expiry), (c) one fixed probe "
         "for the known finding; executed on dutydb.NewMemDB with a scripted core.Deadliner; distinct = distinct recorded traces")
 
 # the known finding, executed on every run (keeps the KNOWN-FINDING line while the defect exists)
@@ -148,6 +149,70 @@ def concurrent_schedules(seed, n, big):
     return out
 
 
+def gate_schedules(seed, n):
+    """Gate tier: Store(A) is held inside deadliner.Add (answer already decided), meanwhile A expires and a Store of
+    another duty B runs (it drains C()); then A's Add is released.  Afterwards A's keys are queried with short-lived
+    contexts / PubKeyByAttestation.  In the required design the expiry test and the write are one critical section."""
+    r = vlib.rng(seed, "c06gate")
+    out = []
+    for i in range(n):
+        pool = Pool(r, False)
+        kind_a = ["att", "pro", "agg", "con"][i % 4] if i < 8 else r.choice(["att", "att", "pro", "pro", "agg", "con"])
+        kind_b = r.choice(["att", "pro", "agg", "con"])
+        slot_a, slot_b = 1, r.choice([2, 3])
+        pool.slots, pool.hot = [slot_a], slot_a
+        a = pool.store(kind_a)
+        if kind_a != "pro":
+            a["set"] = a["set"][:r.choice([1, 1, 2])]
+        else:
+            a["set"] = a["set"][:1]
+        pool.slots, pool.hot = [slot_b], slot_b
+        b = pool.store(kind_b)
+        b["set"] = b["set"][:1]
+        keys = lambda st: [(st["duty"]["type"], k) for e in st["set"] for d in e["data"]
+                           for k in ([{"slot": d["slot"], "comm": d["comm"]}, {"slot": d["slot"], "comm": 0}] if st["duty"]["type"] == "att"
+                                     else [{"slot": d["slot"]}] if st["duty"]["type"] == "pro"
+                                     else [{"slot": d["slot"], "root": d["root"], "comm": d["comm"]}] if st["duty"]["type"] == "agg"
+                                     else [{"slot": d["slot"], "sub": d["sub"], "bbr": d["bbr"]}])]
+        steps, q = [], [0]
+
+        def aw(op, kind, key):
+            q[0] += 1
+            steps.append({"op": op, "q": q[0], "kind": kind, "key": key})
+        if r.random() < 0.3:
+            pool.slots, pool.hot = [4], 4
+            steps.append(pool.store(r.choice(["att", "pro"])))          # something unrelated, stored before
+        if r.random() < 0.35:
+            aw("Await", *r.choice(keys(a)))                               # a query already waiting for A's data
+        if r.random() < 0.25:
+            aw("Await", *r.choice(keys(b)))
+        steps.append(dict(a, op="StoreGated"))
+        expire = i < 8 or r.random() < 0.85
+        if expire:
+            steps.append({"op": "Expire", "duty": a["duty"]})
+        if i < 8 or r.random() < 0.85:
+            steps.append(dict(b, op="StoreBg"))
+        if not expire and r.random() < 0.5:
+            steps.append({"op": "Expire", "duty": b["duty"]})
+        steps.append({"op": "Release"})
+        seen = []
+        for kind, key in keys(a) + keys(b):
+            if (kind, key) not in seen:
+                seen.append((kind, key))
+                aw("AwaitShort", kind, key)
+        for st in (a, b):
+            if st["duty"]["type"] == "att":
+                for e in st["set"]:
+                    d = e["data"][0]
+                    steps.append({"op": "PubKey", "key": {"slot": d["slot"], "comm": r.choice([d["comm"], 0]), "val": d["val"]}})
+        if r.random() < 0.4:                                              # later traffic: is A still (not) served?
+            pool.slots, pool.hot = [5], 5
+            steps.append(pool.store(r.choice(["att", "pro", "con"])))
+            aw("AwaitShort", *r.choice(keys(a)))
+        out.append(steps)
+    return out
+
+
 # ------------------------------------------------------------------------------------------------------------------
 # binding self-tests
 # ------------------------------------------------------------------------------------------------------------------
@@ -257,12 +322,18 @@ def run(tier, seed):
     if r.violation != "MCNeverReplaced":
         raise vlib.Infra("design-spec control failed: AggReplace variant not caught by NeverReplaced: " + r.summary())
     o.selftests.append({"control": "spec variant AggReplace=TRUE violates NeverReplaced", "rejected_as_required": True})
+    # control: deadliner.Add outside db.mu (expiry test and write in two critical sections) must violate ExpiredGone
+    r = vlib.tlc(PID, FAMILY, "DutyDBMC", "DutyDBMC_earlyadd.cfg", timeout=600, workers=4)
+    if r.violation != "ExpiredGone":
+        raise vlib.Infra("design-spec control failed: EarlyAdd variant not caught by ExpiredGone: " + r.summary())
+    o.selftests.append({"control": "spec variant EarlyAdd=TRUE (Add before the mutex) violates ExpiredGone", "rejected_as_required": True})
     # stage 1: schedules
     scheds, g = vlib.gen_schedules(PID, FAMILY, "DutyDBGen", "DutyDBGen.cfg", num=300 if thorough else 40, depth=80, seed=seed,
                                    limit=3000 if thorough else 500)
     n_aggdev = 12 if thorough else 2
     rnd = random_schedules(seed, 3000 if thorough else 400, thorough, n_aggdev)
     conc = concurrent_schedules(seed, 700 if thorough else 60, thorough)
+    gate = gate_schedules(seed, 400 if thorough else 32)
     # stage 2+3
     def conf(schedules, tag, **kw):
         try:
@@ -277,6 +348,7 @@ def run(tier, seed):
     probe_hit = any(k == FINDING for k, _ in o.known)
     conf(scheds, "tlcgen")
     conf(rnd, "random")
+    conf(gate, "gate")          # the deterministic tiers first: a racy rejection of the concurrent tier need not recur
     conf(conc, "conc", chunk=60, env={"C06_REPEAT": "2"})
     if not probe_hit:
         note = ("probe for known finding %s no longer reproduces (storeAggAttestationUnsafe no longer replaces an aggregate "
@@ -286,7 +358,7 @@ def run(tier, seed):
     seen = set()
     o.known = [k for k in o.known if not (k[0] in seen or seen.add(k[0]))]
     # an executor that stopped early (hang / repeated blocking) without a rejection would silently lose coverage
-    for tag, ss in (("tlcgen", scheds), ("random", rnd), ("conc", conc)):
+    for tag, ss in (("tlcgen", scheds), ("random", rnd), ("conc", conc), ("gate", gate)):
         got = {t[0].get("sid") for t in vlib.split_traces(vlib.read_ndjson(vlib.workdir(PID) + "/trace_%s.ndjson" % tag))}
         if len(got) < len(ss) and not o.violations:
             raise vlib.Infra("executor stopped after %d of %d %s schedules without a rejected trace" % (len(got), len(ss), tag))
